@@ -448,3 +448,71 @@ func (s *Sym) render(repl map[string]string) string {
 		return s.Op + "(" + strings.Join(as, ", ") + ")"
 	}
 }
+
+// retCase is one way a function returns: the branch conditions that lead there and the returned values.
+type retCase struct {
+	guard string
+	vals  []ssa.Value
+	pos   token.Pos
+}
+
+// returnCases lists the return cases of f, expanding a phi operand at the return block into one case per
+// incoming edge (so `if c { return a }; return b` and `x := b; if c { x = a }; return x` look the same).
+func returnCases(s *symb, f *ssa.Function) []retCase {
+	var out []retCase
+	instrs(f, func(in ssa.Instruction) {
+		rt, ok := in.(*ssa.Return)
+		if !ok {
+			return
+		}
+		ops := retOperands(rt)
+		blk := rt.Block()
+		var phis []*ssa.Phi
+		for _, o := range ops {
+			if phi, ok := o.(*ssa.Phi); ok && phi.Block() == blk {
+				phis = append(phis, phi)
+			}
+		}
+		if len(phis) == 0 {
+			out = append(out, retCase{guardOf(s, blk, nil), ops, rt.Pos()})
+			return
+		}
+		for i, p := range blk.Preds {
+			vals := make([]ssa.Value, len(ops))
+			for j, o := range ops {
+				vals[j] = o
+				if phi, ok := o.(*ssa.Phi); ok && phi.Block() == blk {
+					vals[j] = phi.Edges[i]
+				}
+			}
+			g := guardOf(s, p, nil)
+			if eg := edgeCond(s, p, blk); eg != "" {
+				if g != "" {
+					g += " && "
+				}
+				g += eg
+			}
+			// normalise the order of conjuncts
+			parts := strings.Split(g, " && ")
+			sort.Strings(parts)
+			out = append(out, retCase{strings.Join(parts, " && "), vals, rt.Pos()})
+		}
+	})
+	return out
+}
+
+// edgeCond renders the condition under which control goes from p to b (empty if unconditional).
+func edgeCond(s *symb, p, b *ssa.BasicBlock) string {
+	iff, ok := p.Instrs[len(p.Instrs)-1].(*ssa.If)
+	if !ok {
+		return ""
+	}
+	c := s.expr(iff.Cond).String()
+	if p.Succs[0] == b && p.Succs[1] != b {
+		return c
+	}
+	if p.Succs[1] == b && p.Succs[0] != b {
+		return "!" + c
+	}
+	return ""
+}
